@@ -9,6 +9,7 @@ import (
 	"reflect"
 	"sort"
 	"sync"
+	"sync/atomic"
 	"time"
 
 	eventbus "github.com/jilio/ebu"
@@ -31,7 +32,26 @@ type Case struct {
 	Handlers     []H  `json:"handlers"`
 	Publishes    int  `json:"publishes"`
 	PanicHandler bool `json:"panic_handler"`
+	// ambient configuration that must not change the outcome
+	Obs   bool `json:"obs,omitempty"`   // an Observability implementation is installed
+	Hooks bool `json:"hooks,omitempty"` // before/after publish hooks are installed
+	Store bool `json:"store,omitempty"` // the bus persists to a memory store
 }
+
+type obsNop struct{ errs *int32 }
+
+func (obsNop) OnPublishStart(ctx context.Context, _ string, _ any) context.Context { return ctx }
+func (obsNop) OnPublishComplete(context.Context, string)                          {}
+func (obsNop) OnHandlerStart(ctx context.Context, _ string, _ bool) context.Context {
+	return ctx
+}
+func (o obsNop) OnHandlerComplete(_ context.Context, _ time.Duration, err error) {
+	if err != nil {
+		atomic.AddInt32(o.errs, 1)
+	}
+}
+func (obsNop) OnPersistStart(ctx context.Context, _ string, _ int64) context.Context { return ctx }
+func (obsNop) OnPersistComplete(context.Context, time.Duration, error)              {}
 
 type pval struct {
 	H, Call int
@@ -112,6 +132,16 @@ func run(c *Case) *vkit.Outcome {
 			ph = append(ph, call)
 			mu.Unlock()
 		}))
+	}
+	var obsErrs int32
+	if c.Obs {
+		opts = append(opts, eventbus.WithObservability(obsNop{&obsErrs}))
+	}
+	if c.Hooks {
+		opts = append(opts, eventbus.WithBeforePublish(func(reflect.Type, any) {}), eventbus.WithAfterPublishContext(func(context.Context, reflect.Type, any) {}))
+	}
+	if c.Store {
+		opts = append(opts, eventbus.WithStore(eventbus.NewMemoryStore()))
 	}
 	bus := eventbus.New(opts...)
 
@@ -247,6 +277,12 @@ func run(c *Case) *vkit.Outcome {
 		if n != want {
 			o.Failf("", "HandlerCount = %d after the run, expected %d (fired Once handlers retired, also when they panicked)", n, want)
 		}
+	}
+	if c.Obs {
+		if int(atomic.LoadInt32(&obsErrs)) != len(wantPH) {
+			o.Failf("", "%d handler invocations panicked, observability saw %d handler completions with an error", len(wantPH), obsErrs)
+		}
+		o.Class("with_observability")
 	}
 	if o.Nontrivial {
 		o.Class("panic_not_last_or_seq_once_async_then_further_publish")
